@@ -550,7 +550,7 @@ pub fn run_rx_behaviour(beh: &Value, sessions: &Vec<Session>, out: &mut Out, lim
                     }
                 }
             }
-            "garbage" | "fuzzhdr" | "mutseq" | "xmlfdt" | "rawset" | "truncall" => {
+            "garbage" | "fuzzhdr" | "mutseq" | "xmlfdt" | "rawset" | "truncall" | "cpswap" => {
                 if let Some(r) = rx.as_mut() {
                     let endpoint = make_ep(ep);
                     let mut cases: Vec<Vec<u8>> = Vec::new();
@@ -576,6 +576,28 @@ pub fn run_rx_behaviour(beh: &Value, sessions: &Vec<Session>, out: &mut Out, lim
                                 // half of the samples start like a plausible LCT header
                                 if x & 1 == 0 && v.len() >= 4 { v[0] = 0x10; v[2] = (v[2] % 12) as u8; }
                                 cases.push(v);
+                            }
+                        }
+                        "cpswap" => {
+                            // packet a[1] relabelled with the codepoint of every FEC scheme (the receiver frames a datagram with the
+                            // codec of its codepoint and decodes the payload id with the codec of the object), with 0..8 bytes or
+                            // everything left after the place where the FEC payload id starts
+                            let i = a[1].as_u64().unwrap() as usize;
+                            if i >= 1 && i <= s.pkts.len() {
+                                let (_, bytes, p) = &s.pkts[i - 1];
+                                let plen = p["len"].as_u64().unwrap_or(0) as usize;
+                                let pid = if bytes.len() > 3 && bytes[3] == 129 { 8 } else { 4 };
+                                if bytes.len() >= plen + pid && bytes.len() > 3 {
+                                    let hdr_end = bytes.len() - plen - pid;
+                                    for cp in [0u8, 1, 2, 5, 6, 129] {
+                                        for keep in [0usize, 1, 2, 3, 4, 5, 7, 8, 9, usize::MAX] {
+                                            let end = if keep == usize::MAX { bytes.len() } else { (hdr_end + keep).min(bytes.len()) };
+                                            let mut v = bytes[..end].to_vec();
+                                            v[3] = cp;
+                                            cases.push(v);
+                                        }
+                                    }
+                                }
                             }
                         }
                         "truncall" => {
